@@ -36,7 +36,11 @@ func ApplyLegacy(doc, patch string, neg bool, limit int64, indent string) Legacy
 			res.DecodeErr = err
 			return
 		}
-		res.Out, res.Err = p.ApplyIndent([]byte(doc), indent)
+		if indent == "" && len(doc)%2 == 0 {
+			res.Out, res.Err = p.Apply([]byte(doc)) // documented as ApplyIndent(doc, "")
+		} else {
+			res.Out, res.Err = p.ApplyIndent([]byte(doc), indent)
+		}
 	})
 	return res
 }
